@@ -13,6 +13,7 @@
     `mentionsOf … k`      the (layer, path) list of the mentioning values, source first
 -/
 import YtkProofs.Analytics
+import YtkProofs.GapAnalytics
 
 namespace Ytk.C19
 open Ytk.Analytics
@@ -253,5 +254,56 @@ theorem nonvacuous_failed :
   have : possiblyContainsPlaceholder kv.1 = true := he ▸ hv
   simp only [exMerged, List.mem_cons, List.not_mem_nil, or_false] at hkv
   rcases hkv with rfl | rfl | rfl <;> exact absurd this (by decide)
+
+/-! ## Round 7b: the hypothesis `hk` is needed; the matchers characterised -/
+
+/-- two merged entries, visited in this order: the KEY of the first is the VALUE text of the second -/
+def cexMerged : Flat := [("${x}", ⟨"string", "${y}"⟩), ("k2", ⟨"string", "${x}"⟩)]
+
+/-- The hypothesis `hk` of `failedKeys_exact_sorted` cannot be dropped (a small DEFECT of the
+    library): `placeholderResolver.Resolve` tests `slices.Contains(failedKeys, ph)` with the VALUE
+    text `ph` although `failedKeys` holds KEYS.  Witness (default matcher, filter = all, nothing
+    resolves): the entry `"${x}" ↦ "${y}"` fails and puts the key `${x}` into failedKeys; the
+    entry `k2 ↦ "${x}"` has a placeholder, is unchanged by resolution, but its value text `${x}`
+    is now "contained", so `k2` is NOT reported.  The report is `["${x}"]`, the specification
+    formula of `failedKeys_exact_sorted` gives `["${x}", "k2"]`; `hk` fails on this input. -/
+theorem failedKeys_needs_hk_counterexample :
+    let r := placeholderReport possiblyContainsPlaceholder (fun _ => true) id cexMerged []
+    let spec := sortStrings ((cexMerged.filter fun kv =>
+        (fun _ => true) kv.1 && possiblyContainsPlaceholder kv.2.text && (kv.2.text == id kv.2.text)).map (·.1))
+    r.failedKeys = ["${x}"] ∧ spec = ["${x}", "k2"] ∧ r.failedKeys ≠ spec ∧
+      ¬ (∀ kv ∈ cexMerged, ∀ v : Scalar, possiblyContainsPlaceholder v.text = true → kv.1 ≠ v.text) := by
+  intro r spec
+  have h1 : r.failedKeys = ["${x}"] := by
+    show sortStrings _ = _
+    rw [show (phLoop possiblyContainsPlaceholder (fun _ => true) id [] cexMerged ⟨[], []⟩).failedKeys = ["${x}"] by decide]
+    exact sortStrings_of_sorted (by decide)
+  have h2 : spec = ["${x}", "k2"] := by
+    show sortStrings _ = _
+    rw [show ((cexMerged.filter fun kv =>
+        (fun _ => true) kv.1 && possiblyContainsPlaceholder kv.2.text && (kv.2.text == id kv.2.text)).map (·.1)) =
+          ["${x}", "k2"] by decide]
+    exact sortStrings_of_sorted (by decide)
+  refine ⟨h1, h2, by rw [h1, h2]; decide, ?_⟩
+  intro h
+  exact h ("${x}", ⟨"string", "${y}"⟩) (by decide) ⟨"string", "${x}"⟩ (by decide) rfl
+
+/-- `hasPlaceholderFunc(k)(v)` characterised for ALL keys and values: `v` is a string that
+    contains `${k}` somewhere, or starts with `${k:` and ends with `}` (core's infix `<:+:`,
+    prefix `<+:`, suffix `<:+` on the character lists). -/
+theorem hasPlaceholder_iff (k : String) (v : Scalar) :
+    hasPlaceholder k v = true ↔
+      v.ty = "string" ∧
+        ((("${".toList ++ k.toList ++ "}".toList) <:+: v.text.toList) ∨
+          ((("${".toList ++ k.toList ++ ":".toList) <+: v.text.toList) ∧ ("}".toList <:+ v.text.toList))) := by
+  simp only [hasPlaceholder, Bool.and_eq_true, Bool.or_eq_true, beq_iff_eq, containsSub_iff, isPrefixOf_iff,
+    isSuffixOf_iff]
+
+/-- `possiblyContainsPlaceholder(s)` characterised for ALL strings: some occurrence of `${` is
+    followed (anywhere behind it) by a `}`.  (The code looks behind the FIRST `${` only; that is
+    the same, because the text behind a later occurrence is part of the text behind the first.) -/
+theorem possiblyContainsPlaceholder_iff (s : String) :
+    possiblyContainsPlaceholder s = true ↔ ∃ a b, s.toList = a ++ "${".toList ++ b ∧ '}' ∈ b :=
+  Analytics.possiblyContainsPlaceholder_iff s
 
 end Ytk.C19
